@@ -66,7 +66,7 @@ def observe_numconv(fx, np, props, t, codes, byvalue=False, hist=None):
         uraw = np.asarray(X.uraw()).ravel().tolist()
         sc = []
         for c in codes:                         # scalar conversions: float(), int(), bool(), x()
-            x = (mkv if byvalue else mk)(fx, np, t, c)
+            x = mk_hist(fx, np, t, c, None, mode=hist) if hist else (mkv if byvalue else mk)(fx, np, t, c)
             sc.append({'fl': wdy(float(x)), 'ii': wint(int(x)), 'bo': bool(x), 'call': wdy(np.asarray(x()).ravel()[0].item() if hasattr(np.asarray(x()).ravel()[0], 'item') else np.asarray(x()).ravel()[0])})
         for name, seq in (('ai', ai), ('raw', raw), ('uraw', uraw)):
             for v in seq:
